@@ -106,6 +106,28 @@ template<class G> struct Pred {
         o.mat(t.rjac()); o.mat(sj); }
       return true;
     }
+    if(op=="P04"){   // C04: X, Y, t
+      G X=mkG(c.args[0]), Y=mkG(c.args[1]); T t=mkT(c.args[2]);
+      G E = t.exp();
+      o.mat(X.rplus(t).coeffs()); o.mat(X.compose(E).coeffs());
+      o.mat(X.lplus(t).coeffs()); o.mat(E.compose(X).coeffs());
+      o.mat(X.rminus(Y).coeffs()); o.mat(Y.inverse().compose(X).log().coeffs());
+      o.mat(X.lminus(Y).coeffs()); o.mat(X.compose(Y.inverse()).log().coeffs());
+      o.mat(X.between(Y).coeffs()); o.mat(X.inverse().compose(Y).coeffs());
+      o.mat((X+t).coeffs()); o.mat(X.compose(E).coeffs());
+      o.mat((t+X).coeffs()); o.mat(E.compose(X).coeffs());
+      o.mat(t.plus(X).coeffs()); o.mat(E.compose(X).coeffs());
+      o.mat(t.lplus(X).coeffs()); o.mat(E.compose(X).coeffs());
+      o.mat(t.rplus(X).coeffs()); o.mat(X.compose(E).coeffs());
+      o.mat((X-Y).coeffs()); o.mat(Y.inverse().compose(X).log().coeffs());
+      o.mat((X*Y).coeffs()); o.mat(X.compose(Y).coeffs());
+      { G Z=X; Z+=t; o.mat(Z.coeffs()); o.mat(X.compose(E).coeffs()); }
+      { G Z=X; Z*=Y; o.mat(Z.coeffs()); o.mat(X.compose(Y).coeffs()); }
+      // round trips (valid whenever the relative rotation is below pi; the generator keeps it there)
+      { T d = (X+t)-X; o.mat(d.coeffs()); o.mat(t.coeffs()); }
+      { G Z = X+(Y-X); o.mat(Z.transform()); o.mat(Y.transform()); }
+      return true;
+    }
     return false;
   }
 };
